@@ -28,6 +28,15 @@ RECURSIVE HasRecord(_)
 HasRecord(v) == \/ (v.k = "dict" /\ Len(v.a) > 0 /\ \A j \in 1..Len(v.a) : v.a[j].a[1].k = "str")
                 \/ \E j \in 1..Len(v.a) : HasRecord(v.a[j])
 
+\* C05, end to end: without a rewriter (and with no TypedDicts, k = 0) the annotation of a traced position is the inferred
+\* type itself - every alternative in it must be witnessed by a value really seen THERE.  Parameters with a None default are
+\* exempt (the renderer shows them as Optional whatever was passed).
+TightViol(p, r) ==
+  LET ann == J2T(p.ann) IN
+  IF r.tight /\ ann.k # "absent" /\ ~HasUnres(ann) /\ Len(p.vals) > 0 /\ ~p.defnone
+     /\ ~Wit(ann, {J2T(p.vals[j]) : j \in 1..Len(p.vals)}, FALSE)
+  THEN {"EndToEndTight"} ELSE {}
+
 PosViol(p) ==
   LET ann == J2T(p.ann) IN
   IF ann.k = "absent" THEN {}
@@ -50,6 +59,7 @@ TDSet(o) == {[name |-> o[j].name, keys |-> {o[j].keys[h] : h \in 1..Len(o[j].key
 Viol(r) ==
   IF r.ev = "Sound"
   THEN UNION {PosViol(r.positions[j]) : j \in 1..Len(r.positions)} \cup TDViol(r)
+       \cup UNION {TightViol(r.positions[j], r) : j \in 1..Len(r.positions)}
        \* beyond the listed properties ("X:" = extended specification): the in-memory StubIndexBuilder, fed the
        \* decoded traces, builds the same stub as the store -> CLI path without a rewriter
        \cup (IF ~r.ib_agrees THEN {"X:IndexBuilderAgrees"} ELSE {})
